@@ -24,7 +24,8 @@ func genC02(g *G, n int, out io.Writer) {
 	enc := json.NewEncoder(out)
 	for i := 0; i < n; i++ {
 		nNodes := 2 + g.n(6)
-		gr := g.graph(nNodes, 0.6)
+		customSteps = i%3 == 2
+		gr := g.graphA(nNodes, 0.6, customSteps)
 		// the focus node is the single instance of class F
 		f := g.n(nNodes)
 		gr[f].Types = append(gr[f].Types, NS+"F")
@@ -52,4 +53,5 @@ func genC02(g *G, n int, out io.Writer) {
 		c.Data = gr.RenderFlat()
 		enc.Encode(c)
 	}
+	customSteps = false
 }
